@@ -407,6 +407,12 @@ def _envelope_fault(doc, ch):
         nisa = docgen.GSeg(isa[-1].node, [list(x) for x in isa[-1].vals], list(isa[-1].chain))
         niea = docgen.GSeg(iea[-1].node, [list(x) for x in iea[-1].vals], list(iea[-1].chain))
         nisa.vals[12] = [ctl]
+        if ch.chance(.5) and len(nisa.vals) > 11:
+            # ... of the other version: the acknowledgement is still the one of the last group
+            if nisa.vals[11] == ['00401']:
+                nisa.vals[11], nisa.vals[10] = ['00501'], ['^']
+            else:
+                nisa.vals[11], nisa.vals[10] = ['00401'], ['U']
         niea.vals[0] = ['0']
         if len(niea.vals) > 1:
             niea.vals[1] = [ctl]
